@@ -21,7 +21,7 @@ def AtBlk (inp : Array Char) : Nat → Blk → Nat → Prop
   | p, .line l, q => (∃ c r, l = c :: r ∧ plainStart c = true) ∧ AtPlain inp p l ∧
       ∃ k, NlRun inp (p + l.length) (k + 1) ∧ q = p + l.length + (k + 1)
   | p, .nest bs, q => inp[p]? = some IND ∧ inp[p + 1]? = some '\n' ∧ inp[p + 2]? ≠ some '\n' ∧ bs ≠ [] ∧
-      ∃ m, AtBlks inp (p + 2) bs m ∧ inp[m]? = some DED ∧ inp[m + 1]? = some '\n' ∧ q = m + 2 ∧ inp[q]? ≠ some '\n'
+      ∃ m, AtBlks inp (p + 2) bs m ∧ inp[m]? = some DED ∧ ∃ k, NlRun inp (m + 1) (k + 1) ∧ q = m + 1 + (k + 1)
 def AtBlks (inp : Array Char) : Nat → List Blk → Nat → Prop
   | p, [], q => p = q
   | p, b :: bs, q => ∃ m, AtBlk inp p b m ∧ AtBlks inp m bs q
@@ -60,18 +60,24 @@ theorem fails_at_ind (r : String) (hr : r ∈ ["hier_element", "conclusions_mark
   simp only [List.all_eq_true, Bool.and_eq_true, Bool.not_eq_true'] at this
   exact rule_fails_at r m IND hm (this r hr).1 (this r hr).2
 
-/-- a marker line: the marker character, a newline, and no further newline -/
-theorem marker_line (rule : String) (ch : Char)
+/-- a marker line: the marker character and `k + 1` newlines (its own and `k` blank lines) -/
+theorem marker_line_run (rule : String) (ch : Char)
     (hl : aknExec.lookup rule = some (.seq (.cons [] (.lit [ch]) (.cons ["eol"] (.ref "eol") .nil))))
-    (p : Nat) (h0 : inp[p]? = some ch) (h1 : inp[p + 1]? = some '\n') (h2 : inp[p + 2]? ≠ some '\n') :
-    ∃ t, Lim aknExec inp (.ref rule) p (.ok t) ∧ t.stop = p + 2 := by
-  obtain ⟨te, hte, hts⟩ := eol_exact (p + 1) h1 h2
+    (p : Nat) (h0 : inp[p]? = some ch) (k : Nat) (h1 : NlRun inp (p + 1) (k + 1)) :
+    ∃ t, Lim aknExec inp (.ref rule) p (.ok t) ∧ t.stop = p + 1 + (k + 1) := by
+  obtain ⟨te, hte, hts⟩ := eol_run (p + 1) k h1
   have hlit : Lim aknExec inp (.lit [ch]) p (.ok (Tree.leaf p (p + 1))) := by
     have := lim_lit_ok (g := aknExec) (inp := inp) (s := [ch]) (p := p) (by simp [litMatch, h0])
     simpa using this
   refine ⟨_, lim_ref hl (lim_seq (limS_cons_ok hlit (limS_cons_ok (by simpa using hte) limS_nil))), ?_⟩
   cases te with
   | node a b c d e => simp only [Tree.stop] at hts; simp [Tree.stop, hts]
+
+theorem marker_line (rule : String) (ch : Char)
+    (hl : aknExec.lookup rule = some (.seq (.cons [] (.lit [ch]) (.cons ["eol"] (.ref "eol") .nil))))
+    (p : Nat) (h0 : inp[p]? = some ch) (h1 : inp[p + 1]? = some '\n') (h2 : inp[p + 2]? ≠ some '\n') :
+    ∃ t, Lim aknExec inp (.ref rule) p (.ok t) ∧ t.stop = p + 2 :=
+  marker_line_run rule ch hl p h0 0 ⟨h1, h2⟩
 
 /-- like `firstCandidate`, for a candidate that is the *last* alternative -/
 def lastCandidate (g : Grammar) (d : Nat) (c : Option Char) : PExps → Option String
@@ -146,7 +152,7 @@ theorem atBlk_progress (inp : Array Char) : ∀ (b : Blk) (p q : Nat), AtBlk inp
     obtain ⟨_, _, k, _, hq⟩ := h
     omega
   | .nest bs, p, q, h => by
-    obtain ⟨_, _, _, _, m, hbs, _, _, hq, _⟩ := h
+    obtain ⟨_, _, _, _, m, hbs, _, k, _, hq⟩ := h
     have : p + 2 ≤ m := atBlks_mono inp bs (p + 2) m hbs
     omega
 where
@@ -170,14 +176,15 @@ theorem block_element_at (inp : Array Char) : ∀ (b : Blk) (p q : Nat), AtBlk i
     obtain ⟨tl, hline, htl⟩ := line_run p c r hp h15 k hn
     exact ⟨tl, block_rules_follow_line inp p c hp.1 hb tl hline "block_element" (by simp [blockLevelRules]), htl⟩
   | .nest bs, p, q, h => by
-    obtain ⟨h0, h1, h2, hne, m, hbs, hm0, hm1, hq, hqn⟩ := h
+    obtain ⟨h0, h1, h2, hne, m, hbs, hm0, k, hrun, hq⟩ := h
+    have hm1 : inp[m + 1]? = some '\n' := hrun.1
     subst hq
     obtain ⟨ti, hti, htis⟩ := marker_line "indent" IND lk_indent p h0 h1 h2
     obtain ⟨out, hloop⟩ := block_elements_loop inp bs (p + 2) m (p + 2) [] hbs hm0 hm1 (by
       cases bs with
       | nil => exact absurd rfl hne
       | cons _ _ => simp)
-    obtain ⟨td, htd, htds⟩ := marker_line "dedent" DED lk_dedent m hm0 hm1 hqn
+    obtain ⟨td, htd, htds⟩ := marker_line_run "dedent" DED lk_dedent m hm0 k hrun
     have hplus : Lim aknExec inp (.plus (.ref "block_element")) (p + 2) (.ok (.node (p + 2) m [] [] out)) := lim_plus hloop
     refine ⟨_, lim_ref lk_be (lim_choice (limC_cons_ok (lim_ref lk_nbe (lim_typed (lim_seq
       (limS_cons_ok hti (limS_cons_ok (by rw [htis]; exact hplus) (limS_cons_ok (by simpa [Tree.stop] using htd) limS_nil)))))))), ?_⟩
@@ -245,14 +252,15 @@ theorem bodyItem_at (b : Blk) (p q : Nat) (h : AtBlk inp p b q) :
     subst hq
     exact bodyItem_line_run p c r hp hs k hn
   | nest bs =>
-    obtain ⟨h0, h1, h2, hne, m, hbs, hm0, hm1, hq, hqn⟩ := h
+    obtain ⟨h0, h1, h2, hne, m, hbs, hm0, k, hrun, hq⟩ := h
+    have hm1 : inp[m + 1]? = some '\n' := hrun.1
     subst hq
     obtain ⟨ti, hti, htis⟩ := marker_line "indent" IND lk_indent p h0 h1 h2
     obtain ⟨out, hloop⟩ := hier_block_elements_loop bs (p + 2) m (p + 2) [] hbs hm0 hm1 (by
       cases bs with
       | nil => exact absurd rfl hne
       | cons _ _ => simp)
-    obtain ⟨td, htd, htds⟩ := marker_line "dedent" DED lk_dedent m hm0 hm1 hqn
+    obtain ⟨td, htd, htds⟩ := marker_line_run "dedent" DED lk_dedent m hm0 k hrun
     have hplus : Lim aknExec inp (.plus (.ref "hier_block_element")) (p + 2) (.ok (.node (p + 2) m [] [] out)) := lim_plus hloop
     have hhbi : Lim aknExec inp (.ref "hier_block_indent") p (.ok _) :=
       lim_ref lk_hbi (lim_choice (limC_cons_ok (lim_seq
